@@ -24,6 +24,7 @@ type capsCfg struct {
 	TlsConfigured bool `json:"tlsConfigured"`
 	InsecureAuth  bool `json:"insecureAuth"`
 	AuthBackend   bool `json:"authBackend"`
+	AuthMechs     bool `json:"authMechs"`
 	Lmtp          bool `json:"lmtp"`
 }
 
@@ -46,7 +47,7 @@ func runCaps(e *capsEntry, implicit bool, n int, used bool) []string {
 		implicit = true
 	}
 	srv := drv.Start(drv.Cfg{LMTP: c.Lmtp, MaxRcpt: c.MaxRcpt, MaxBytes: int64(c.MaxBytes), MaxLine: 2000, TLSAvail: c.TlsConfigured,
-		ImplicitTLS: implicit, ExternalTLS: external, InsecureAuth: c.InsecureAuth, AuthBackend: c.AuthBackend, UTF8: c.Utf8, RequireTLS: c.RequireTLS,
+		ImplicitTLS: implicit, ExternalTLS: external, InsecureAuth: c.InsecureAuth, AuthBackend: c.AuthBackend, NoMechs: c.AuthBackend && !c.AuthMechs, UTF8: c.Utf8, RequireTLS: c.RequireTLS,
 		Binarymime: c.Binarymime, DSN: c.Dsn, RRVS: c.Rrvs, NoTracer: true})
 	defer srv.Stop()
 	cn, err := srv.Dial()
@@ -192,8 +193,8 @@ func init() {
 			}
 			entries = append(entries, e)
 		}
-		if len(entries) != 4096 {
-			evid.Inconclusive("expected 4096 configuration entries, TLC printed %d", len(entries))
+		if len(entries) != 8192 {
+			evid.Inconclusive("expected 8192 configuration entries, TLC printed %d", len(entries))
 		}
 		const n = 7
 		var mu sync.Mutex
